@@ -44,7 +44,7 @@ macro_rules! kmul {
 macro_rules! kmul_boxed {
     ($name:ident, $A:expr, $B:expr, $a:expr, $b:expr) => {
         #[kani::proof]
-        #[kani::unwind(18)]
+        #[kani::unwind(26)]
         fn $name() {
             let af: Uint<$A> = $a;
             let bf: Uint<$B> = $b;
@@ -95,10 +95,10 @@ kmul!(c03_k8k_kmul_5_5, 5, 5, shaped(1), { let w: Uint<3> = shaped(1); let l = w
 kmul!(c03_k8k_kmul_5_5w, 5, 5, shaped(1), shaped(1));
 //@ name=c03_k8k_kmul_5_7 prop=C03,C15 tier=thorough profile=k8k funcs="karatsuba_mul_limbs (unequal, both trailing)" bound="u8 words, thresholds (2,1): 5x7 limbs, every limb S(1)" free_bits=24
 kmul!(c03_k8k_kmul_5_7, 5, 7, shaped(1), shaped(1));
-//@ name=c03_k8k_kmul_6_6 prop=C03,C15 tier=thorough profile=k8k funcs="karatsuba_mul_limbs (half = 3: inner call with trailing limb)" bound="u8 words, thresholds (2,1): 6x6 limbs, every limb S(1)" free_bits=24
-kmul!(c03_k8k_kmul_6_6, 6, 6, shaped(1), shaped(1));
-//@ name=c03_k8k_kmul_3_3w prop=C03,C15 tier=thorough profile=k8k funcs="karatsuba_mul_limbs" bound="u8 words, thresholds (2,1): 3x3 limbs, every limb S(3)" free_bits=24
-kmul!(c03_k8k_kmul_3_3w, 3, 3, shaped(3), shaped(3));
+//@ name=c03_k8k_kmul_5_7q prop=C03,C15 tier=quick profile=k8k funcs="karatsuba_mul_limbs (lhs shorter, both trailing),adc_mul_limbs (accumulating)" bound="u8 words, thresholds (2,1): 5x7 limbs, lhs limbs S(1), rhs = [u,u,u,v,w,w,w] with u,v,w S(1)" free_bits=16
+kmul!(c03_k8k_kmul_5_7q, 5, 7, shaped(1), { let t: Uint<3> = shaped(1); let l = t.as_limbs(); Uint::new([l[0], l[0], l[0], l[1], l[2], l[2], l[2]]) });
+//@ name=c03_k8k_kmul_6_6 prop=C03,C15 tier=thorough profile=k8k funcs="karatsuba_mul_limbs (half = 3: inner call with trailing limb)" bound="u8 words, thresholds (2,1): 6x6 limbs, lhs limbs S(1), rhs = [u,v,w,u,v,w] with u,v,w S(1)" free_bits=18
+kmul!(c03_k8k_kmul_6_6, 6, 6, shaped(1), { let t: Uint<3> = shaped(1); let l = t.as_limbs(); Uint::new([l[0], l[1], l[2], l[0], l[1], l[2]]) });
 
 //@ name=c03_k8k_boxed_mul_3_3 prop=C03,C15,C11 tier=quick profile=k8k funcs="BoxedUint::mul (Karatsuba dispatch),karatsuba_mul_limbs" bound="u8 words, thresholds (2,1): boxed 3x3 limbs, every limb S(1)" free_bits=12
 kmul_boxed!(c03_k8k_boxed_mul_3_3, 3, 3, shaped(1), shaped(1));
@@ -107,6 +107,8 @@ kmul_boxed!(c03_k8k_boxed_mul_2_5, 2, 5, shaped(1), shaped(1));
 //@ name=c03_k8k_boxed_mul_5_3 prop=C03,C15,C11 tier=quick profile=k8k funcs="BoxedUint::mul (Karatsuba dispatch, unequal lengths)" bound="u8 words, thresholds (2,1): boxed 5x3 limbs, every limb S(1)" free_bits=16
 kmul_boxed!(c03_k8k_boxed_mul_5_3, 5, 3, shaped(1), shaped(1));
 
+//@ name=c03_k8k_boxed_mul_5_7 prop=C03,C15,C11 tier=quick profile=k8k funcs="BoxedUint::mul (Karatsuba dispatch, lhs shorter, both trailing)" bound="u8 words, thresholds (2,1): boxed 5x7 limbs, lhs limbs S(1), rhs = [u,u,u,v,w,w,w] with u,v,w S(1)" free_bits=16
+kmul_boxed!(c03_k8k_boxed_mul_5_7, 5, 7, shaped(1), { let t: Uint<3> = shaped(1); let l = t.as_limbs(); Uint::new([l[0], l[0], l[0], l[1], l[2], l[2], l[2]]) });
 //@ name=c03_k8k_ksq_4 prop=C03,C15,C11 tier=quick profile=k8k funcs="karatsuba_square_limbs,BoxedUint::square (Karatsuba dispatch)" bound="u8 words, thresholds (2,1): 4 limbs, every limb S(2)" free_bits=12
 ksq!(c03_k8k_ksq_4, 4, 18, shaped(2));
 //@ name=c03_k8k_ksq_6 prop=C03,C15,C11 tier=quick profile=k8k funcs="karatsuba_square_limbs (odd half: schoolbook inner),BoxedUint::square" bound="u8 words, thresholds (2,1): 6 limbs, every limb S(1)" free_bits=12
